@@ -109,11 +109,45 @@ pub struct Invocation {
     /// the child cannot know the input has ended - wait (at most 15 s) until this file of the sandbox
     /// has reached this size; Finished::grew_before_eof says whether it did
     pub watch_before_eof: Option<(String, u64)>,
+    /// give the child a controlling pseudo-terminal and let it ask for its passwords there instead of
+    /// reading them from the environment: `--env-pass`, KESTREL_PASSWORD and KESTREL_NEW_PASSWORD are
+    /// taken out of the invocation and the same passwords are typed on the terminal (see tty_lines).
+    /// Ignored (the environment is used) when a password cannot be typed on a terminal line.
+    pub pass_via_tty: bool,
+}
+
+/// The lines to type on the controlling terminal for an invocation whose passwords were given through
+/// the environment, or None if they cannot be typed (control characters would be interpreted by the
+/// line discipline; a canonical-mode line holds at most 4095 bytes).
+pub fn tty_lines(inv: &Invocation) -> Option<Vec<u8>> {
+    let get = |k: &str| inv.env.iter().rev().find(|(n, _)| n == k).map(|(_, v)| v.clone());
+    if !inv.args.iter().any(|a| a == b"--env-pass") {
+        return None;
+    }
+    let pw = get("KESTREL_PASSWORD")?;
+    let is_change = inv.args.iter().any(|a| a == b"change-pass");
+    let lines: Vec<String> = if is_change {
+        let np = get("KESTREL_NEW_PASSWORD")?;
+        vec![pw, np.clone(), np]
+    } else {
+        // one prompt (unlock, decrypt) or a prompt and its confirmation (generate, password encrypt):
+        // a line that is never read stays in the terminal's queue and is discarded with it
+        vec![pw.clone(), pw]
+    };
+    let mut out = vec![];
+    for l in &lines {
+        if l.len() > 1000 || l.bytes().any(|b| b < 0x20 || b == 0x7f) {
+            return None;
+        }
+        out.extend_from_slice(l.as_bytes());
+        out.push(b'\n');
+    }
+    Some(out)
 }
 
 impl Invocation {
     pub fn new(args: &[&str]) -> Invocation {
-        Invocation { args: args.iter().map(|a| a.as_bytes().to_vec()).collect(), env: vec![], stdin: Stdin::Null, stdout: Stdout::Capture, entropy_seed: Some(1), fault_plan: None, timeout_s: 60, sample_rss: false, env_bytes: vec![], fifo: None, watch_before_eof: None }
+        Invocation { args: args.iter().map(|a| a.as_bytes().to_vec()).collect(), env: vec![], stdin: Stdin::Null, stdout: Stdout::Capture, entropy_seed: Some(1), fault_plan: None, timeout_s: 60, sample_rss: false, env_bytes: vec![], fifo: None, watch_before_eof: None, pass_via_tty: false }
     }
     pub fn env(mut self, k: &str, v: &str) -> Self {
         self.env.push((k.to_string(), v.to_string()));
@@ -184,13 +218,45 @@ impl Finished {
 pub fn run(sb: &Sandbox, inv: &Invocation) -> Finished {
     use std::os::unix::ffi::OsStrExt;
     let mut cmd = Command::new(kestrel_bin());
+    let typed: Option<Vec<u8>> = if inv.pass_via_tty { tty_lines(inv) } else { None };
     for a in &inv.args {
+        if typed.is_some() && a == b"--env-pass" {
+            continue;
+        }
         cmd.arg(std::ffi::OsStr::from_bytes(a));
     }
     cmd.current_dir(&sb.dir);
     cmd.env_clear();
     for (k, v) in &inv.env {
+        if typed.is_some() && (k == "KESTREL_PASSWORD" || k == "KESTREL_NEW_PASSWORD") {
+            continue;
+        }
         cmd.env(k, v);
+    }
+    // the controlling terminal: the passwords are typed before the child starts (canonical mode keeps
+    // them as separate lines in the input queue; echo is off so nothing is reflected to the master)
+    let mut ctty: Option<(std::fs::File, std::fs::File)> = None;
+    if let Some(lines) = &typed {
+        use std::os::unix::io::FromRawFd;
+        let (mut m, mut sl) = (0i32, 0i32);
+        let rc = unsafe { libc::openpty(&mut m, &mut sl, std::ptr::null_mut(), std::ptr::null_mut(), std::ptr::null_mut()) };
+        if rc != 0 {
+            panic!("harness: openpty failed: {}", std::io::Error::last_os_error());
+        }
+        unsafe {
+            libc::fcntl(m, libc::F_SETFD, libc::FD_CLOEXEC);
+            libc::fcntl(sl, libc::F_SETFD, libc::FD_CLOEXEC);
+            let mut t: libc::termios = std::mem::zeroed();
+            if libc::tcgetattr(sl, &mut t) == 0 {
+                t.c_lflag &= !libc::ECHO;
+                libc::tcsetattr(sl, libc::TCSANOW, &t);
+            }
+            let n = libc::write(m, lines.as_ptr() as *const libc::c_void, lines.len());
+            if n != lines.len() as isize {
+                panic!("harness: cannot type the passwords on the pseudo-terminal");
+            }
+        }
+        ctty = Some((unsafe { std::fs::File::from_raw_fd(m) }, unsafe { std::fs::File::from_raw_fd(sl) }));
     }
     for (k, v) in &inv.env_bytes {
         cmd.env(k, std::ffi::OsStr::from_bytes(v));
@@ -277,9 +343,19 @@ pub fn run(sb: &Sandbox, inv: &Invocation) -> Finished {
     }
     cmd.stderr(Stdio::piped());
     unsafe {
-        // no controlling terminal: /dev/tty cannot be opened, so a password prompt can never block
-        cmd.pre_exec(|| {
+        // no controlling terminal (unless one is asked for): /dev/tty cannot be opened, so a password
+        // prompt can never block
+        let ctty_fd: Option<i32> = ctty.as_ref().map(|(_, sl)| {
+            use std::os::unix::io::AsRawFd;
+            sl.as_raw_fd()
+        });
+        cmd.pre_exec(move || {
             libc::setsid();
+            if let Some(fd) = ctty_fd {
+                if libc::ioctl(fd, libc::TIOCSCTTY, 0) != 0 {
+                    return Err(std::io::Error::last_os_error());
+                }
+            }
             Ok(())
         });
     }
@@ -329,6 +405,23 @@ pub fn run(sb: &Sandbox, inv: &Invocation) -> Finished {
             v = String::from_utf8_lossy(&v).replace("\r\n", "\n").into_bytes();
         }
         v
+    });
+    // what the child prints on its controlling terminal (prompts) is drained and dropped; the slave
+    // side stays open here until the child has been reaped so that typed lines are never lost
+    let (ctty_master, ctty_slave) = match ctty {
+        Some((m, sl)) => (Some(m), Some(sl)),
+        None => (None, None),
+    };
+    let t_tty = ctty_master.map(|mut m| {
+        std::thread::spawn(move || {
+            let mut buf = [0u8; 4096];
+            loop {
+                match m.read(&mut buf) {
+                    Ok(0) | Err(_) => break,
+                    Ok(_) => {}
+                }
+            }
+        })
     });
     let t_err = std::thread::spawn(move || {
         let mut v = vec![];
@@ -424,6 +517,10 @@ pub fn run(sb: &Sandbox, inv: &Invocation) -> Finished {
     }
     // the child has been reaped here; do not let Child try again
     std::mem::forget(child);
+    drop(ctty_slave);
+    if let Some(t) = t_tty {
+        let _ = t.join();
+    }
     let stdout = t_out.join().unwrap_or_default();
     let stderr = t_err.join().unwrap_or_default();
     let shim_log = std::fs::read(&shim_log_path).unwrap_or_default();
